@@ -336,6 +336,33 @@ def catalogue():
         return Scenario("If/Then/ElseIf/Else", "If", build, versions=[2, 10], modes=["Application"])
     S.append(ifelif())
 
+    def ifelif_open(ra, rb, style):
+        """If / ElseIf chain WITHOUT a final Else: it can complete normally (no condition holds) whatever its branches do"""
+        def build(env, v, mode):
+            c1, k1 = env.child("u")
+            c2, k2 = env.child("u")
+            a, ka = env.child("n", has_return=ra)
+            b, kb = env.child("n", has_return=rb)
+            e = pt.If(c1).Then(a).ElseIf(c2).Then(b) if style == "chain" else pt.If(c1, a, pt.If(c2, b))
+            return {"expr": e, "term": SEQ(C(k1), ("ifnz", C(ka), SEQ(C(k2), ("ifnz", C(kb), ("skip",)))))}
+        return Scenario(f"If/ElseIf/no-else/ret={ra},{rb}/{style}", "If", build, versions=[2, 10], modes=["Application"])
+    for ra in (False, True):
+        for rb in (False, True):
+            for st in ("chain", "nested"):
+                S.append(ifelif_open(ra, rb, st))
+
+    def ifelif3_open():
+        def build(env, v, mode):
+            cs = [env.child("u") for _ in range(3)]
+            bs = [env.child("n", has_return=True) for _ in range(3)]
+            e = pt.If(cs[0][0]).Then(bs[0][0]).ElseIf(cs[1][0]).Then(bs[1][0]).ElseIf(cs[2][0]).Then(bs[2][0])
+            t = ("skip",)
+            for (c, kc), (b, kb) in reversed(list(zip(cs, bs))):
+                t = SEQ(C(kc), ("ifnz", C(kb), t))
+            return {"expr": e, "term": t}
+        return Scenario("If/ElseIf/ElseIf/no-else/all-return", "If", build, versions=[2, 10], modes=["Application"])
+    S.append(ifelif3_open())
+
     # ---- Cond -----------------------------------------------------------------------------------------------
     def cond(k, ty, rets):
         def build(env, v, mode):
